@@ -108,6 +108,31 @@ def gen_service(k, methods, attr="none"):
         lines.append("            emit(\"Name\", json!({\"svc\": %d, \"m\": \"%s\", \"raw\": %s, \"name\": tarpc::RequestName::name(&req)}));"
                      % (k, name, "true" if m.get("raw") else "false"))
         lines.append("        }")
+    # C16: a peer that answers a request with a well-formed response of another rpc's type must not crash the caller
+    present = [m for m in methods if m.get("gate") != "off"]
+    if len(present) >= 2:
+        dflt = {"unit": "()", "int": "0", "str": "String::new()"}
+        m0, m1 = present[0], present[1]
+        v0, v1 = "".join(m0["variant"]), "".join(m1["variant"])
+        tys = arg_types(m0)
+        vals = [("1" if t == "i32" else "\"x\".to_string()") for t in tys]
+        lines += [
+            "        {",
+            "            let (tx, rx) = tarpc::transport::channel::unbounded();",
+            "            let server = BaseChannel::with_defaults(rx);",
+            "            tokio::spawn(server.execute(tarpc::server::serve(|_ctx, req: Svc%dRequest| async move {" % k,
+            "                Ok::<_, tarpc::ServerError>(match req { Svc%dRequest::%s { .. } => Svc%dResponse::%s(%s), _ => Svc%dResponse::%s(%s) })"
+            % (k, v0, k, v1, dflt[m1["ret"]], k, v0, dflt[m0["ret"]]),
+            "            })).for_each(|f| async move { tokio::spawn(f); }));",
+            "            let client = Svc%dClient::new(tarpc::client::Config::default(), tx).spawn();" % k,
+            "            let h = tokio::spawn(async move { client.%s(tarpc::context::current()%s).await.map(|_| ()).map_err(|e| e.to_string()) });"
+            % (ident(m0), "".join(", " + v for v in vals)),
+            "            let r = h.await;",
+            "            let panicked = r.as_ref().err().map(|e| e.is_panic()).unwrap_or(false);",
+            "            emit(\"WrongVariant\", json!({\"svc\": %d, \"m\": \"%s\", \"panicked\": panicked, \"res\": format!(\"{:?}\", r.ok())}));"
+            % (k, "".join(m0["name"])),
+            "        }",
+        ]
     lines += ["    }", "}"]
     return "\n".join(lines)
 
